@@ -189,7 +189,9 @@ def classify_verus(info):
     if info["rc"] == 0 and vr.get("success") and vr.get("errors", 1) == 0 and vr.get("verified", 0) > 0:
         return "ok", funcs, [], smt_ms, vr.get("verified", 0)
     if info["rc"] == 124 or RESOURCE.search(se):
-        return "undecided", funcs, [{"kind": "resource", "text": se[-1500:]}], smt_ms, 0
+        mres = re.search(r"error: [^\n]*(?:Resource limit|rlimit)[^\n]*\n\s*-->[^\n]*(?:\n[^\n]*){0,3}", se)
+        txt = ("verifier ran out of its resource budget (no verdict): " + mres.group(0)) if mres else se[-1500:]
+        return "undecided", funcs, [{"kind": "resource", "text": txt[:1500]}], smt_ms, 0
     fails = []
     blocks = re.split(r"\n(?=error)", "\n" + se)
     hard = []
